@@ -3,7 +3,9 @@ module verifharness
 go 1.23.0
 
 require (
+	github.com/go-faster/jx v1.1.0
 	github.com/go-faster/yaml v0.4.6
+	github.com/google/uuid v1.6.0
 	github.com/ogen-go/ogen v0.0.0
 )
 
@@ -12,8 +14,6 @@ require (
 	github.com/fatih/color v1.18.0 // indirect
 	github.com/ghodss/yaml v1.0.0 // indirect
 	github.com/go-faster/errors v0.7.1 // indirect
-	github.com/go-faster/jx v1.1.0 // indirect
-	github.com/google/uuid v1.6.0 // indirect
 	github.com/mattn/go-colorable v0.1.13 // indirect
 	github.com/mattn/go-isatty v0.0.20 // indirect
 	github.com/segmentio/asm v1.2.0 // indirect
